@@ -312,10 +312,24 @@ where
     for line in output.split_at_newline() {
         // only lines that carry the salt of this execution are dividers, everything
         // else - even if it looks like a divider - is output of the test
-        let divider = if contains_bytes(line, &divider_start) {
-            parse_divider_bytes(line).map_err(|err| ExecutionError::failed(expected_index, err))?
-        } else {
-            DividerSearch::NotFound
+        // the divider proper starts where the salted prefix starts: whatever precedes it on
+        // the same line is (unterminated) output of the test, even if it looks like a divider
+        let divider = match position_of_bytes(line, &divider_start) {
+            Some(start) => match parse_divider_bytes(&line[start..])
+                .map_err(|err| ExecutionError::failed(expected_index, err))?
+            {
+                DividerSearch::Found {
+                    output_index,
+                    exit_code,
+                    ..
+                } => DividerSearch::Found {
+                    prefix: (start > 0).then(|| line[..start].to_vec()),
+                    output_index,
+                    exit_code,
+                },
+                DividerSearch::NotFound => DividerSearch::NotFound,
+            },
+            None => DividerSearch::NotFound,
         };
         match divider {
             DividerSearch::NotFound => buffer.push(line.to_vec()),
@@ -358,10 +372,10 @@ fn salted_divider_prefix(salt: &str) -> Vec<u8> {
     format!("{}{}::", DIVIDER_PREFIX, salt).into_bytes()
 }
 
-fn contains_bytes(haystack: &[u8], needle: &[u8]) -> bool {
+fn position_of_bytes(haystack: &[u8], needle: &[u8]) -> Option<usize> {
     haystack
         .windows(needle.len())
-        .any(|window| window == needle)
+        .position(|window| window == needle)
 }
 
 /// Create a new divider that separated outputs of multiple executions
